@@ -135,21 +135,26 @@ Definition shallow_copy (k : cls_spec) (inh : bool) (i : inst) : res inst :=
     end
   else Ok {| i_slots := i_slots i; i_dict := i_dict i; i_args := None |}.
 
-(** ** assoc
+(** ** assoc (after the repairs 1567142 and 2787de0 in /repo)
 
 <<
     new = copy.copy(inst)
+    if getattr(new, _HASH_CACHE_FIELD, None) is not None:
+        _OBJ_SETATTR(new, _HASH_CACHE_FIELD, None)
     attrs = fields(inst.__class__)
     for k, v in changes.items():
         a = getattr(attrs, k, NOTHING)
-        if a is NOTHING:
+        if not isinstance(a, Attribute):
             raise AttrsAttributeNotFoundError(msg)
         _OBJ_SETATTR(new, k, v)
     return new
 >>
     [attrs] is an instance of a generated [tuple] subclass with one property per field
-    ([_make_attr_tuple_class]): [getattr] finds the field properties AND everything a
-    tuple object has. *)
+    ([_make_attr_tuple_class]): [getattr] finds the field properties (Attribute objects)
+    AND everything a tuple object has (methods, dunders: not Attribute objects).
+
+    [old = true] is the code BEFORE the two repairs (no cache reset; anything that is not
+    [NOTHING] accepted); it is kept only for the refutation witnesses. *)
 
 Definition TUPLE_ATTRS : list string :=
   ["__add__"; "__class__"; "__class_getitem__"; "__contains__"; "__delattr__"; "__dir__";
@@ -161,32 +166,61 @@ Definition TUPLE_ATTRS : list string :=
 
 Definition is_field_name (k : cls_spec) (n : string) : bool := mem_str n (map a_name (k_attrs k)).
 
-(** [getattr(attrs, n, NOTHING) is not NOTHING] *)
-Definition fields_getattr_found (k : cls_spec) (n : string) : bool :=
-  is_field_name k n || mem_str n TUPLE_ATTRS.
+(** [getattr(attrs, n, NOTHING)] *)
+Inductive tuple_lookup := TLAttribute | TLOtherObject | TLNothing.
+
+Definition fields_getattr (k : cls_spec) (n : string) : tuple_lookup :=
+  if is_field_name k n then TLAttribute
+  else if mem_str n TUPLE_ATTRS then TLOtherObject
+  else TLNothing.
+
+(** the test guarding the store: [isinstance(a, Attribute)]; before: [a is not NOTHING] *)
+Definition name_accepted (old : bool) (k : cls_spec) (n : string) : bool :=
+  match fields_getattr k n with
+  | TLAttribute => true
+  | TLOtherObject => old
+  | TLNothing => false
+  end.
+
+(** [if getattr(new, _HASH_CACHE_FIELD, None) is not None: _OBJ_SETATTR(new, ..., None)] *)
+Definition reset_cache (k : cls_spec) (new : inst) : res inst :=
+  match read k new HASH_CACHE with
+  | Raise _ => Ok new
+  | Ok c => if is_none c then Ok new else obj_setattr k new HASH_CACHE VNone
+  end.
 
 Inductive assoc_outcome :=
 | AssocDone (new : inst)
 | AssocNotFound                    (* AttrsAttributeNotFoundError *)
 | AssocRaised (e : exc).
 
-Fixpoint assoc_loop (k : cls_spec) (new : inst) (changes : alist) : assoc_outcome :=
+Fixpoint assoc_loop (old : bool) (k : cls_spec) (new : inst) (changes : alist) : assoc_outcome :=
   match changes with
   | [] => AssocDone new
   | (n, v) :: r =>
-      if fields_getattr_found k n then
+      if name_accepted old k n then
         match obj_setattr k new n v with
-        | Ok new' => assoc_loop k new' r
+        | Ok new' => assoc_loop old k new' r
         | Raise e => AssocRaised e
         end
       else AssocNotFound
   end.
 
-Definition assoc (k : cls_spec) (inh : bool) (i : inst) (changes : alist) : inst * assoc_outcome :=
+Definition assoc_gen (old : bool) (k : cls_spec) (inh : bool) (i : inst) (changes : alist)
+  : inst * assoc_outcome :=
   match shallow_copy k inh i with
   | Raise e => (i, AssocRaised e)
-  | Ok new => (i, assoc_loop k new changes)
+  | Ok c =>
+      match (if old then Ok c else reset_cache k c) with
+      | Raise e => (i, AssocRaised e)
+      | Ok new => (i, assoc_loop old k new changes)
+      end
   end.
+
+(** the code as it is *)
+Definition assoc := assoc_gen false.
+(** the code before the repairs *)
+Definition assoc_buggy := assoc_gen true.
 
 (** ** Histories of the original before the call *)
 
